@@ -927,6 +927,9 @@ DEFOP(dupcheck) {
     if (x->refkind != R_NONE || [&] { std::vector<MVal *> all; mv_collect(x, all); for (MVal *k : all) if (k->refkind) return true; return false; }()) w.stats.probes["dup_with_references"]++;
     if (!cc.empty()) w.stats.probes["dup_with_constant_keys"]++;
     if (m->is_container() && m->kids.size() >= 2) w.mark_nontrivial();
+    // "editing or deleting either tree never changes the other": from here on a crash inside an edit of this history counts
+    // (the driver replays the history without its duplicates to see whether it needs them)
+    if (w.cfg.judge_independence && w.crash_judged_from > w.cur_step) w.crash_judged_from = w.cur_step + 1;
     w.log.add("dupcheck -> s" + I(slot) + " " + mv_dump(m, 60));
 }
 // "the source is never modified": every field of every node of a chain, before and after the call
